@@ -810,11 +810,12 @@ func (g *bgen) nestPointer(root O, t []string, tgts [][]string) bool {
 	return true
 }
 
-// refFreeTarget picks a pointer target under definitions, outside definition `not`, without any $ref inside.
+// refFreeTarget picks a pointer target (a direct sub-schema of a root definition other than `not`, or the schema
+// of a shared parameter / response when those are pointer targets at all) without any $ref inside.
 func (g *bgen) refFreeTarget(root O, not string, tgts [][]string) []string {
 	var cands [][]string
 	for _, o := range tgts {
-		if o[0] != "definitions" || o[1] == not {
+		if o[0] == "definitions" && o[1] == not {
 			continue
 		}
 		var v J = root
